@@ -200,6 +200,7 @@ def c07(ctx: Ctx) -> None:
     RP.rule_lp_zero_columns(ctx, P + "reduce_polytope", ["a_help"], ["b_help"], allow_lp=True)
     RP.rule_zero_column_exactness(ctx)
     RA.rule_constructor(ctx, RA.POLY)
+    RP.rule_contract_simplify(ctx)
     RP.rule_lp_bounds(ctx)
 
 
